@@ -190,4 +190,60 @@ theorem namedFlowEventName_table (m : String) :
     split <;> simp_all
   simp [namedFlowEventName, hf]
 
+/-! ### indexer's name function vs dispatcher's name function -/
+
+theorem nameOfSpecG_actionEventName (flows : List String) (ctx : Ctx) (s : ElemSpec) :
+    nameOfSpecG actionEventName flows ctx s = nameOfSpec flows ctx s := by
+  rcases s with ⟨vn, n, t, ms⟩
+  cases vn <;> simp only [nameOfSpecG, nameOfSpec, nameOf] <;> rfl
+
+theorem actionEventName_change (a : String) : actionEventName a "Change" = .error .changeWithoutArguments := by
+  unfold actionEventName
+  rw [if_neg (by decide)]
+  rfl
+
+theorem actionEventNameD_of_ok (b : Bool) (a m nm : String) (h : actionEventName a m = .ok nm) : actionEventNameD b a m = .ok nm := by
+  unfold actionEventNameD
+  split
+  · rename_i hc
+    obtain ⟨hm, _⟩ := hc
+    subst hm
+    rw [actionEventName_change] at h
+    cases h
+  · exact h
+
+theorem nameOfSpecG_mono (an1 an2 : String → String → Except Err String)
+    (hmono : ∀ a m nm, an1 a m = .ok nm → an2 a m = .ok nm)
+    (flows : List String) (ctx : Ctx) (s : ElemSpec) (nm : String)
+    (h : nameOfSpecG an1 flows ctx s = .ok nm) : nameOfSpecG an2 flows ctx s = .ok nm := by
+  rcases s with ⟨vn, n, t, ms⟩
+  cases vn with
+  | none =>
+    cases ms with
+    | none => simpa [nameOfSpecG] using h
+    | some l =>
+      cases t <;> cases n <;> cases l <;> simp only [nameOfSpecG] at h ⊢ <;> first
+        | exact h
+        | exact hmono _ _ _ h
+        | (split at h <;> simp_all)
+  | some v =>
+    simp only [nameOfSpecG] at h ⊢
+    generalize ctx.find? (fun x => decide (x.1 = v)) = fo at h ⊢
+    cases fo with
+    | none => simp at h
+    | some p =>
+      obtain ⟨_, obj⟩ := p
+      simp only at h ⊢
+      generalize walk obj _ = w at h ⊢
+      cases w with
+      | error e => simp at h
+      | ok o =>
+        simp only at h ⊢
+        generalize o.kind = k at h ⊢
+        generalize ms.bind List.getLast? = mo at h ⊢
+        cases k <;> cases mo <;> simp only at h ⊢ <;> first
+          | exact h
+          | exact hmono _ _ _ h
+          | simp_all
+
 end NemoVerif.RefName
